@@ -778,6 +778,9 @@ class Lower:
         while d.get('kind') != 'DeclRefExpr':
             if d.get('kind') == 'MemberExpr':
                 return self.e_CXXMemberCallExpr(n)
+            if d.get('kind') == 'CXXPseudoDestructorExpr':
+                # p->~T() for a scalar T: no effect ([expr.pseudo]); the object expression is evaluated
+                return '((void)(%s))' % self.E(self.inner(d)[0])
             d = self.inner(d)[0]
         r = d['referencedDecl']
         tgt = self.ast.byid.get(r['id'])
@@ -1919,6 +1922,19 @@ class Lower:
         return new
 
     def function(self, d, cname, spec):
+        # per-function type / stub overlays ('types', 'stubs' in the function's spec): template instantiations of one function template
+        # spell different argument types the same way (std::shared_ptr<Data> for the local Data of each whenArgs instantiation)
+        if spec.get('types') or spec.get('stubs'):
+            saved_t, saved_s = self.typemap, self.stubs
+            self.typemap = dict(saved_t, **spec.get('types', {}))
+            self.stubs = dict(saved_s, **spec.get('stubs', {}))
+            try:
+                return self._function(d, cname, spec)
+            finally:
+                self.typemap, self.stubs = saved_t, saved_s
+        return self._function(d, cname, spec)
+
+    def _function(self, d, cname, spec):
         spec = self.recover_renames(d, cname, spec)
         self.cur_fn = cname
         self.cur_q = self.ast.qname(d)
